@@ -118,17 +118,22 @@ def stage_decode(ctx):
 
 SPEC = spec(
     'C09',
-    ['C09_reported_count', 'C09_first_failure_after_success_reports_one', 'C09_exceptions_are_mapped', 'C09_reported_outcome_is_the_mapped_one'],
+    ['C09_reported_count', 'C09_first_failure_after_success_reports_one', 'C09_exceptions_are_mapped', 'C09_reported_outcome_is_the_mapped_one',
+     'C09_no_exception_in_loop_callbacks', 'C09_loop_exception_is_expressible'],
     text='Coq theorem C09_reported_count: for every history of request outcomes of any length, the count carried by the '
          'RequestFailedException of a failing request equals the number of failed requests since the last success (model of '
          'Inverter._read_from_socket, compared with the real method on ALL histories up to length 5 (quick) / 7 (thorough) over '
-         '{success, RequestFailed, MaxRetries, Rejected}).  Protocol model (trace-validated): execute() maps every exception '
+         '{success, RequestFailed, MaxRetries, Rejected}).  C09_no_exception_in_loop_callbacks: NO run of the protocol model (any callers, any I/O / '
+         'timer / OS-error / close() / new-loop events, any fault oracle) contains an exception in an event-loop callback (invariant: callbacks '
+         'that dereference the command / response_future are scheduled only after the first transmission; the retry recursion never runs out '
+         'of fuel).  Protocol model (trace-validated): execute() maps every exception '
          'that can reach it to an outcome of the InverterError family.  Monitors on the fault scripts of C04 plus OS errors '
          '(ECONNREFUSED/EHOSTUNREACH through error_received / connection_lost, send errors, connect failures): only InverterError '
          'exceptions reach the caller and no exception is left in a loop callback; checksum-valid identification payloads with '
          'arbitrary (non-ASCII, ill-formed UTF-16) bytes through discover()/connect() give a value or an InverterError.',
-    note='Partial: "no exception in an event-loop callback over all runs" is established by trace validation (the model emits '
-         'ALoopExc where the code would raise) and the monitor, not by a theorem.',
+    note='The model emits ALoopExc exactly where the code would dereference a missing command / future (and for out-of-fuel); exceptions '
+         'of other origins inside callbacks (e.g. inside asyncio itself) are outside the model and covered by the loop-exception-handler '
+         'monitor on the real runs only.',
     technique='Coq proof on hand models (failure counter; exception mapping) + exhaustive correspondence on histories + trace validation + monitors',
     design='DESIGN.md section 5 (C09)',
     rule='histories: all sequences over 4 outcome kinds up to length 5/7; fault scripts as C04 + OS-error letters; identification '
